@@ -1765,6 +1765,9 @@ start_member (GMarkupParseContext *context,
   enum_ = (GIrNodeEnum *)CURRENT_NODE (ctx);
   enum_->values = g_list_append (enum_->values, value_);
 
+  /* <attribute> children belong to the member, until it ends */
+  ctx->current_typed = (GIrNode *) value_;
+
   return TRUE;
 }
 
@@ -2382,7 +2385,8 @@ start_attribute (GMarkupParseContext *context,
       (ctx->current_typed->type == G_IR_NODE_PARAM ||
        ctx->current_typed->type == G_IR_NODE_FIELD ||
        ctx->current_typed->type == G_IR_NODE_PROPERTY ||
-       ctx->current_typed->type == G_IR_NODE_CONSTANT))
+       ctx->current_typed->type == G_IR_NODE_CONSTANT ||
+       ctx->current_typed->type == G_IR_NODE_VALUE))
     {
       g_hash_table_insert (ctx->current_typed->attributes, g_strdup (name), g_strdup (value));
     }
@@ -3593,7 +3597,10 @@ end_element_handler (GMarkupParseContext *context,
 
     case STATE_ENUM:
       if (strcmp ("member", element_name) == 0)
-	break;
+	{
+	  ctx->current_typed = NULL;
+	  break;
+	}
       else if (strcmp ("function", element_name) == 0)
 	break;
       else if (require_one_of_end_elements (context, ctx,
